@@ -683,7 +683,12 @@ impl<'a> Renderer<'a> {
             if self.rng.bool() {
                 s.push(' ');
             }
-            s.push_str(self.rng.pick(&["; comment", ";", "; \"quoted ( text ; IN A 1.2.3.4", ";\t$ORIGIN nowhere.", "; unicode \u{00e9}\u{4e2d}"]));
+            if self.rng.chance(1, 2) {
+                s.push(';');
+                s.push_str(&comment_text(&mut self.rng));
+            } else {
+                s.push_str(self.rng.pick(&["; comment", ";", "; \"quoted ( text ; IN A 1.2.3.4", ";\t$ORIGIN nowhere.", "; unicode \u{00e9}\u{4e2d}"]));
+            }
         }
         if !self.plain && self.rng.chance(1, 10) {
             self.features.insert("layout:crlf");
@@ -955,6 +960,21 @@ pub fn v6_text(rng: &mut Rng, a: Ipv6Addr, features: &mut BTreeSet<&'static str>
     }
 }
 
+/// What may follow a comment character: anything but a line break (every character that means something elsewhere in
+/// the syntax is in the alphabet).
+pub fn comment_text(rng: &mut Rng) -> String {
+    const CHUNKS: [&str; 28] = [
+        "%", "100%", "fe80::1%lo0", "#", ";", "\"", "'", "\\", "1.2.3.4", "::1", "name.example", " ", "\t", "\u{00e9}", "\u{4e2d}", "(", ")", "$ORIGIN", "@", "*", "IN",
+        "A", "\\032", "a", "z", "0", ".", "..",
+    ];
+    let n = rng.below(9);
+    let mut s = String::new();
+    for _ in 0..n {
+        s.push_str(rng.pick(&CHUNKS));
+    }
+    s
+}
+
 /// Generate a hosts file and the mapping it denotes.
 pub fn gen_hosts(rng: &mut Rng, tag: u8, max_lines: usize) -> (String, HostsModel, BTreeSet<&'static str>) {
     let mut model = HostsModel::default();
@@ -1029,6 +1049,14 @@ pub fn gen_hosts(rng: &mut Rng, tag: u8, max_lines: usize) -> (String, HostsMode
                     1 => {
                         features.insert("comment:after-whitespace");
                         line.push_str(" # a comment with names.in.it 9.9.9.9");
+                    }
+                    3 | 4 => {
+                        features.insert("comment:arbitrary-text");
+                        if rng.bool() {
+                            line.push_str(&ws(rng));
+                        }
+                        line.push('#');
+                        line.push_str(&comment_text(rng));
                     }
                     2 => {
                         features.insert("trailing-whitespace");
